@@ -419,9 +419,9 @@ theorem malvar_constant_level (cfa : Cfa) (m n : ℕ) (v : Rat) (ch : Chan) (R C
 spelling of the average in the source) -/
 theorem gen_deinterlace {K : Type} [Field K] (g1 g2 : K) : Generated.C16.deinterlaceGreen g1 g2 = (g1 + g2) / 2 := by
   first
-    | (simp only [Generated.C16.deinterlaceGreen, Model.C16.deinterlaceGreen, Num.ofInt]; push_cast; ring)
-    | (simp only [Generated.C16.deinterlaceGreen, Model.C16.deinterlaceGreen, Num.ofInt, Num.ofFrac]; push_cast; ring)
-    | (simp [Generated.C16.deinterlaceGreen, Model.C16.deinterlaceGreen, Num.ofInt]; ring)
+    | (simp only [Generated.C16.deinterlaceGreen, Model.C16.deinterlaceGreen, Num.ofInt]; push_cast; ring; done)
+    | (simp only [Generated.C16.deinterlaceGreen, Model.C16.deinterlaceGreen, Num.ofInt, Num.ofFrac]; push_cast; ring; done)
+    | (simp only [Generated.C16.deinterlaceGreen, Model.C16.deinterlaceGreen, Num.ofInt, Num.ofFrac]; push_cast; field_simp; ring)
 
 /-- `demosaic_deinterlace` of a mosaic assembled from four planes returns the red and the blue plane sample for sample
 (raw samples, no crosstalk) and the mean of the two green planes, both layouts — in particular equal greens keep
